@@ -86,3 +86,9 @@ CLAIMS["C15"] = dict(
     note="Trusted: typed AST of search_utils.go / ops.go; constant evaluation via go/constant.",
     technique="static analysis: exhaustiveness of constant tables, sibling key-set agreement, guard-dominates-dispatch over SSA",
 )
+CLAIMS["C16"] = dict(
+    ref="DESIGN.md §4 C16",
+    text="Decides the shape of authorisation for EVERY registered route at once: the route table (WEB-1); per handler, the effect class from the call graph (mutating / key management); the middleware's role decision extracted from its SSA as decision paths over (method, path) tests and evaluated three-valuedly on each route pattern, wildcards being attacker-chosen — required role >= effect for all instantiations (WEB-3); HasAccess has a denying test for every role the middleware can require (SIB-roles); the inner handler is reached only via the root-token equality or VerifyToken success and HasAccess==true for every extracted namespace; VerifyToken pins ECDSA, requires Valid, and returns a policy only after parsing the token and consulting the revocation list in this call (WEB-auth); the middleware authorises exactly the request locations handlers address indexes through (WEB-4); auth state is written only through journaled engine calls (JRN-2). JWT library correctness and expiry arithmetic are NOT decided.",
+    note="Trusted: VTA call graph for handler effects; the decision-path extraction understands ==, HasPrefix, HasSuffix and last-segment tests on r.Method / r.URL.Path (anything else is an opaque test, both branches feasible). Two genuine instances (RAG pipeline routes) are listed in known_findings.json.",
+    technique="static analysis: route-table × call-graph effect × policy-model (predicate abstraction of the middleware's SSA, three-valued evaluation on route patterns); taint-style provenance of index arguments",
+)
